@@ -1104,6 +1104,9 @@ def _sql_kind(node, env):
     else:
         raise Unsupported('SQL text of an execute call is not a (formatted) string literal: ' + ast.unparse(node))
     t = ' '.join(txt.split()).upper()
+    if t.startswith('CREATE TABLE IF NOT EXISTS') or t.startswith('DROP TABLE IF EXISTS') or t.startswith('INSERT OR'):
+        # a table that survives keeps its ROWS: the model's state (a table exists or does not) would no longer be enough
+        raise Unsupported('conditional SQL statement in _generate_temp_tables (rows of a surviving table are not modelled): ' + txt[:60])
     for prefix, kind in (('DROP TABLE', 'drop'), ('CREATE TABLE', 'create'), ('INSERT INTO', 'insert'),
                          ('SELECT COUNT(*) FROM SQLITE_MASTER', 'exists?')):
         if t.startswith(prefix):
